@@ -285,7 +285,8 @@ class Prop(PropBase):
             # a negative fraction to the 2^-53 grid, so bit-for-bit equality is not attainable for every phase
             if (p is None or p >= 17) and abs(exact) <= TWO52:
                 back = F(unhx(code["back"][0])) + F(unhx(code["back"][1]))
-                if abs(back - exact) > EPS or code["back"][2] != case["imag"] and exact != 0:
+                # (a parse result that is exactly zero carries no real/imaginary information: '0.0j' for a 1e-17j phase)
+                if abs(back - exact) > EPS or code["back"][2] != case["imag"] and exact != 0 and back != 0:
                     return f"from_string(to_string(p)) differs from p by {float(abs(back - exact)):.3g} for {s!r}"
             return None
         if "err" in code:
